@@ -345,11 +345,14 @@ def _parse_object(
         title = autotitle
     if not title:
         raise SchemaParseError.missing_title(schema)
-    # Keep the numeric suffix of de-duplicated class names (see `dedupe`), so
-    # that serialized documents are parsed back to the same class names.
-    base, _, suffix = title.rpartition("_")
-    if not (re.fullmatch("[0-9]+", suffix) and _title_format(base)):
-        base, suffix = title, ""
+    # Keep the numeric suffixes of de-duplicated class names (see `dedupe`),
+    # so that serialized documents are parsed back to the same class names.
+    base, suffix = title, ""
+    while True:
+        head, _, tail = base.rpartition("_")
+        if not (re.fullmatch("[0-9]+", tail) and _title_format(head)):
+            break
+        base, suffix = head, f"_{tail}{suffix}"
     title = _title_format(base) or _title_format(autotitle)
     if not title:
         raise SchemaParseError.missing_title(schema)
@@ -357,8 +360,7 @@ def _parse_object(
         title = f"_{title}"
     if title in _RESERVED_TITLES:
         title = f"{title}_"
-    if suffix:
-        title = f"{title}_{suffix}"
+    title = f"{title}{suffix}"
     properties = schema.get("properties", {})
     declared = {prop.source for prop in properties.values()}
     for key in schema.get("required", []):
